@@ -4,10 +4,12 @@ go 1.26
 
 require (
 	github.com/atlassian/gostatsd v0.0.0
+	github.com/pierrec/lz4/v4 v4.1.19
 	github.com/sirupsen/logrus v1.9.0
 	github.com/spf13/viper v1.17.0
 	github.com/tilinna/clock v1.1.0
 	golang.org/x/time v0.3.0
+	google.golang.org/protobuf v1.34.1
 )
 
 require (
@@ -23,7 +25,6 @@ require (
 	github.com/modern-go/concurrent v0.0.0-20180306012644-bacd9c7ef1dd // indirect
 	github.com/modern-go/reflect2 v1.0.2 // indirect
 	github.com/pelletier/go-toml/v2 v2.1.0 // indirect
-	github.com/pierrec/lz4/v4 v4.1.19 // indirect
 	github.com/sagikazarmark/slog-shim v0.1.0 // indirect
 	github.com/spf13/afero v1.10.0 // indirect
 	github.com/spf13/cast v1.5.1 // indirect
@@ -32,7 +33,6 @@ require (
 	golang.org/x/net v0.35.0 // indirect
 	golang.org/x/sys v0.30.0 // indirect
 	golang.org/x/text v0.22.0 // indirect
-	google.golang.org/protobuf v1.34.1 // indirect
 	gopkg.in/ini.v1 v1.67.0 // indirect
 	gopkg.in/yaml.v3 v3.0.1 // indirect
 )
